@@ -238,8 +238,8 @@ type cmap4 []cmapEntry16
 
 func newCmap4(cm tables.CmapSubtable4) (cmap4, error) {
 	segCount := len(cm.EndCode)
-	out := make(cmap4, segCount)
-	for i := range out {
+	out := make(cmap4, 0, segCount)
+	for i := 0; i < segCount; i++ {
 		entry := cmapEntry16{
 			end:   cm.EndCode[i],
 			start: cm.StartCode[i],
@@ -248,6 +248,11 @@ func newCmap4(cm tables.CmapSubtable4) (cmap4, error) {
 		idRangeOffset := int(cm.IdRangeOffsets[i])
 		if entry.end < entry.start {
 			return nil, errors.New("invalid cmap subtable format 4 segment")
+		}
+		// the segments must be sorted and must not overlap (Lookup bisects them, and each one
+		// may resolve its own copy of the glyph array): ignore a segment which does not start after the previous one
+		if L := len(out); L != 0 && entry.start <= out[L-1].end {
+			continue
 		}
 
 		// some fonts use 0xFFFF for idRangeOff for the last segment
@@ -263,7 +268,7 @@ func newCmap4(cm tables.CmapSubtable4) (cmap4, error) {
 				entry.indexes[j] = tables.GlyphID(binary.BigEndian.Uint16(cm.GlyphIDArray[2*index:]))
 			}
 		}
-		out[i] = entry
+		out = append(out, entry)
 	}
 	return out, nil
 }
